@@ -22,6 +22,9 @@ def check(ctx: Ctx):
     ctx.explain("DIM abstract interpretation of get_structure_factor (units length/amplitude/count and coordinate-vs-length typing) and the structural rules RAWDATA, INDEXAGREE, PASS, ADDZERO.")
     spectrum.check_sf_units(ctx)
     spectrum.check_sf_structure(ctx)
+    from ..rules import support
+
+    support.check_sigma_float(ctx)
     from ..rules import purity
 
     purity.check_stateless(ctx, ["droplets.image_analysis.get_structure_factor"])
